@@ -35,6 +35,9 @@ func (c Config) String() string {
 
 // Prog is the loaded, type-checked and SSA-built library for one configuration.
 type Prog struct {
+	hoistMemo map[*ssa.Function][]int
+	al        *alignment
+	rawByName map[string]*ssa.Function
 	Cfg    Config
 	Repo   string
 	Fset   *token.FileSet
@@ -162,6 +165,15 @@ func load(cfg Config) (*Prog, error) {
 	for _, fn := range p.Funcs {
 		p.inSet[fn] = true
 	}
+	p.rawByName = map[string]*ssa.Function{}
+	for _, fn := range p.Funcs {
+		n := p.rawFuncName(fn)
+		if _, ok := p.rawByName[n]; !ok {
+			p.rawByName[n] = fn
+		}
+	}
+	theProg = p
+	p.align()
 	for _, fn := range p.Funcs {
 		n := p.FuncName(fn)
 		if _, ok := p.ByName[n]; !ok {
@@ -203,7 +215,7 @@ func (p *Prog) isArche(fn *ssa.Function) bool {
 }
 
 // FuncName gives a short stable name: "ecs.(*World).Add", "ecs.subscribes".
-func (p *Prog) FuncName(fn *ssa.Function) string {
+func (p *Prog) rawFuncName(fn *ssa.Function) string {
 	s := fn.String()
 	s = strings.ReplaceAll(s, modPath+"/ecs/event", "event")
 	s = strings.ReplaceAll(s, modPath+"/ecs/stats", "stats")
@@ -221,6 +233,26 @@ func (p *Prog) FuncName(fn *ssa.Function) string {
 		}
 	}
 	return s
+}
+
+// FuncName is the name rules and obligation keys use: the reference name if the function was aligned with a
+// reference function under another name (schema.go), else its own.
+func (p *Prog) FuncName(fn *ssa.Function) string {
+	n := p.rawFuncName(fn)
+	if p.al != nil {
+		if r, ok := p.al.funcCurToRef[n]; ok {
+			return r
+		}
+		// instantiations and closures of a renamed function
+		if o := fn.Origin(); o != nil {
+			if r, ok := p.al.funcCurToRef[p.rawFuncName(o)]; ok {
+				_, on := funcOwner(p.rawFuncName(o))
+				_, rn := funcOwner(r)
+				return strings.Replace(n, "."+on, "."+rn, 1)
+			}
+		}
+	}
+	return n
 }
 
 // Fn returns the function with the given short name, or nil.
@@ -261,7 +293,27 @@ func (p *Prog) Callees(site ssa.CallInstruction) (fns []*ssa.Function, boundary 
 		}
 	}
 	if sc := c.StaticCallee(); sc != nil {
-		return []*ssa.Function{p.canon(sc)}, false
+		fns := []*ssa.Function{p.canon(sc)}
+		// a higher-order helper whose function parameters are only ever given closures / named functions: the calls of
+		// those parameters are attributed to this call site (one level of context), not to every caller of the helper
+		if hp := p.hoistableParams(p.canon(sc)); len(hp) > 0 {
+			for _, i := range hp {
+				if i < len(c.Args) {
+					if f := closureFn(c.Args[i]); f != nil {
+						fns = append(fns, f)
+					}
+				}
+			}
+		}
+		return fns, false
+	}
+	// a call of the enclosing function's own function-typed parameter that is hoisted to the call sites (see above)
+	if pr, ok := c.Value.(*ssa.Parameter); ok && site.Parent() != nil {
+		for _, i := range p.hoistableParams(site.Parent()) {
+			if paramIndex(pr) == i {
+				return nil, false
+			}
+		}
 	}
 	out := p.sites[site]
 	sort.Slice(out, func(i, j int) bool { return out[i].String() < out[j].String() })
@@ -301,7 +353,7 @@ func (p *Prog) Field(q string) *types.Var {
 		return nil
 	}
 	for k := 0; k < st.NumFields(); k++ {
-		if st.Field(k).Name() == q[i+1:] {
+		if fieldName(n, k) == q[i+1:] {
 			return st.Field(k)
 		}
 	}
@@ -394,4 +446,72 @@ func (p *Prog) canon(fn *ssa.Function) *ssa.Function {
 		}
 	}
 	return fn
+}
+
+func closureFn(v ssa.Value) *ssa.Function {
+	switch x := v.(type) {
+	case *ssa.MakeClosure:
+		if f, ok := x.Fn.(*ssa.Function); ok {
+			return f
+		}
+	case *ssa.Function:
+		return x
+	case *ssa.ChangeType:
+		return closureFn(x.X)
+	}
+	return nil
+}
+
+// hoistableParams: indices of function-typed parameters of fn that fn only calls (never stores or passes on), where
+// every call site of fn in the library passes a closure or a named function for them.
+func (p *Prog) hoistableParams(fn *ssa.Function) []int {
+	if p.hoistMemo == nil {
+		p.hoistMemo = map[*ssa.Function][]int{}
+	}
+	if v, ok := p.hoistMemo[fn]; ok {
+		return v
+	}
+	p.hoistMemo[fn] = nil
+	if fn == nil || fn.Blocks == nil || !p.isArche(fn) {
+		return nil
+	}
+	var out []int
+	for i, pr := range fn.Params {
+		if _, ok := pr.Type().Underlying().(*types.Signature); !ok {
+			continue
+		}
+		onlyCalled := true
+		for _, ref := range *pr.Referrers() {
+			ci, ok := ref.(ssa.CallInstruction)
+			if !ok || ci.Common().Value != ssa.Value(pr) {
+				onlyCalled = false
+			}
+		}
+		if !onlyCalled {
+			continue
+		}
+		nsites, all := 0, true
+		for _, g := range p.Funcs {
+			for _, b := range g.Blocks {
+				for _, ins := range b.Instrs {
+					cs, ok := ins.(ssa.CallInstruction)
+					if !ok {
+						continue
+					}
+					if sc := cs.Common().StaticCallee(); sc == nil || p.canon(sc) != fn {
+						continue
+					}
+					nsites++
+					if i >= len(cs.Common().Args) || closureFn(cs.Common().Args[i]) == nil {
+						all = false
+					}
+				}
+			}
+		}
+		if nsites > 0 && all {
+			out = append(out, i)
+		}
+	}
+	p.hoistMemo[fn] = out
+	return out
 }
